@@ -40,13 +40,17 @@ pub const ED: [KeyMat; 16] = [
 ];
 /// ECDSA P-256 keys.
 pub const P256: [KeyMat; 2] = [km!("p256_0", Algorithm::ECDSAP256SHA256), km!("p256_1", Algorithm::ECDSAP256SHA256)];
+/// ECDSA P-384 keys.
+pub const P384: [KeyMat; 2] = [km!("p384_0", Algorithm::ECDSAP384SHA384), km!("p384_1", Algorithm::ECDSAP384SHA384)];
 /// The RSA-2048 key of the repository's integration tests (used as RSASHA256).
 pub const RSA: [KeyMat; 1] = [km!("rsa2048", Algorithm::RSASHA256)];
+/// The same RSA key used as RSASHA512.
+pub const RSA512: [KeyMat; 1] = [km!("rsa2048", Algorithm::RSASHA512)];
 /// Three Ed25519 keys whose DNSKEY RDATA with flags 256 has the same key tag.
 pub const TAG: [KeyMat; 3] = [km!("tag0", Algorithm::ED25519), km!("tag1", Algorithm::ED25519), km!("tag2", Algorithm::ED25519)];
 
 pub fn by_id(id: &str) -> Option<KeyMat> {
-    ED.iter().chain(P256.iter()).chain(RSA.iter()).chain(TAG.iter()).find(|k| k.id == id).copied()
+    ED.iter().chain(P256.iter()).chain(P384.iter()).chain(RSA.iter()).chain(TAG.iter()).find(|k| k.id == id).copied()
 }
 
 impl KeyMat {
@@ -68,10 +72,10 @@ impl KeyMat {
     pub fn shared(&self) -> std::sync::Arc<Box<dyn SigningKey>> {
         use std::collections::HashMap;
         use std::sync::{Arc, Mutex, OnceLock};
-        static CACHE: OnceLock<Mutex<HashMap<&'static str, Arc<Box<dyn SigningKey>>>>> = OnceLock::new();
+        static CACHE: OnceLock<Mutex<HashMap<(&'static str, u8), Arc<Box<dyn SigningKey>>>>> = OnceLock::new();
         let c = CACHE.get_or_init(|| Mutex::new(HashMap::new()));
         let mut g = c.lock().unwrap();
-        g.entry(self.id).or_insert_with(|| Arc::new(self.signing_key())).clone()
+        g.entry((self.id, u8::from(self.alg))).or_insert_with(|| Arc::new(self.signing_key())).clone()
     }
 }
 
